@@ -91,6 +91,24 @@ pub const DECLS: &[(&str, &str)] = &[
   ("class-generic", "export class C@N<T extends @R = @R> { v!: T; m<U>(u: U): U { return u; } }\n"),
   ("class-decorated", "function dec@N(t: any, c?: any): any {}\n@dec@N\nexport class C@N { @dec@N p: number = 1; @dec@N m(): void {} }\n"),
   ("class-accessor-keyword", "export class C@N { accessor a: @R = null as any; }\n"),
+  ("class-member-ref", "export class C@N { prop: @R = null as any; static sp: number = 1; }\nexport type MR@N = C@N[\"prop\"];\nexport type SR@N = typeof C@N.sp;\n"),
+  ("class-computed-members", "export class C@N { [Symbol.iterator](): Iterator<@R> { return null as any; } [\"lit\"]: number = 1; static readonly [Symbol.species]?: number; }\n"),
+  ("class-super-member-expr", "namespace Bases@N { export class B { b: @R = null as any; } }\nexport class C@N extends Bases@N.B {}\n"),
+  ("class-super-call", "function mixin@N(): typeof Object { return Object; }\nexport class C@N extends mixin@N() {}\n"),
+  ("unique-symbol", "export const s@N = Symbol(\"x\");\nexport const t@N: unique symbol = Symbol();\n"),
+  ("mapped-type", "export type M@N = { [K in keyof @R]?: @R[K] };\nexport type Cond@N<T> = T extends @R ? T : never;\n"),
+  ("template-literal", "export type TL@N = `pre-${string}`;\nexport const tl@N = `a${1}b`;\n"),
+  ("satisfies", "export const c@N = { a: 1 } satisfies Record<string, number>;\n"),
+  ("type-assertion", "export const c@N = <@R>(null as any);\n"),
+  ("return-inference", "export function f@N() { return 1; }\nexport function g@N() { return \"s\"; }\nexport function h@N() {}\nexport async function i@N() {}\n"),
+  ("override-and-optional-method", "class Base@N { m(): void {} }\nexport class C@N extends Base@N { override m(): void {} opt?(): @R; }\n"),
+  ("export-name-string", "const v@N: @R = null as any;\nexport { v@N as \"str-name@N\" };\n"),
+  ("abstract-class", "export abstract class A@N { abstract am(x: @R): @R; protected abstract readonly ap: number; concrete(): void {} }\n"),
+  ("function-this-param", "export function f@N(this: @R, a: number): void {}\n"),
+  ("getter-inferred", "export class C@N { get g() { return 1; } set g(v) {} }\n"),
+  ("arrow-generic-async", "export const c@N = async <T,>(a: T): Promise<T> => a;\n"),
+  ("declare-exports", "export declare const dc@N: @R;\nexport declare function df@N(a: @R): void;\n"),
+  ("const-in-function-type", "export const c@N: (a: @R) => @R = (a) => a;\nexport let fnv@N: { (x: @R): void; new (y: number): @R };\n"),
   ("interface", "export interface I@N { a: @R; m(x: @R): @R; readonly [k: string]: any; }\n"),
   ("interface-extends", "interface BaseI@N { z: @R }\nexport interface I@N extends BaseI@N { y: number }\n"),
   ("type-alias", "export type T@N = @R | string;\n"),
